@@ -124,6 +124,9 @@ def run_ca_case(case):
 def run_hook_case(case):
     """One hook of one class misbehaves at its k-th invocation."""
     hp = {'exit': {case['hook']: [0] * case['at'] + [case['exit']]}}
+    if case.get('post_exit') is not None:
+        # the post-operation hook itself exits non-zero whenever it runs (say, a reload command that only works after a success)
+        hp['exit']['h_post'] = [case['post_exit']] * 50
 
     def cfg(d, ca):
         with open(d + '/hookplan.json', 'w') as f:
@@ -360,11 +363,15 @@ def gen(tier):
         for ex in (1, 2, 127, 255, 'signal'):
             for at in ((0, 1) if tier == 'quick' else (0, 1, 2, 3)):
                 hook_cases.append({'hook': hook, 'exit': ex, 'at': at, 'second_hooks': (len(hook_cases) % 2 == 1)})
+        if hook != 'h_post':
+            # a failed attempt whose post-operation hook fails as well: the pause before the next attempt is still due
+            hook_cases.append({'hook': hook, 'exit': 1, 'at': 0, 'post_exit': 1, 'pinned': True})
+            hook_cases.append({'hook': hook, 'exit': 2, 'at': 1, 'post_exit': 'signal', 'pinned': True})
         if hook != 'h_post':  # an unspawnable post-operation hook leaves nothing to observe
             hook_cases.append({'hook': hook, 'exit': 0, 'at': 0, 'unspawnable': True})
     if tier == 'quick':
         r.shuffle(hook_cases)
-        hook_cases = hook_cases[:36]
+        hook_cases = [c for c in hook_cases if c.get('pinned')][:5] + [c for c in hook_cases if not c.get('pinned')][:36]
     multi_cert = []
     for j in range(10 if tier == 'quick' else 90):
         n = r.randint(2, 6) if j > 2 else (2, 4, 6)[j]
